@@ -27,6 +27,13 @@ LIB: dict[str, dict] = {
     "TOp1": _op("op1", [("a", None)]),
     "TOp1Def": _op("op1d", [("a", "d1")]),
     "TOp2": _op("op2", [("a", None), ("b", "d2")]),
+    # keyword-only parameters are parameters like any other
+    "TOpKw": _op("opkw", [("a", None), ("g", "dg")]),
+    "TOpKwReq": _op("opkwr", [("a", "da"), ("g", None)]),
+    # classes derived from concrete operations, with other defaults than their parents
+    "TOp1DefSub": _op("op1s", [("a", "dsub")]),
+    "TOp2Sub": _op("op2s", [("a", None), ("b", None)]),
+    "TOp1Sub": _op("op1sub", [("a", "asub")]),
     "TOpW": _op("opw", [("a", None)], declared=["w"], beh=["termWrite", "opw", "w", "w"]),
     "TOpW2": _op("opk", [], declared=["k"], beh=["termWrite", "opk", "k", "wk"]),
     "TOpUndeclared": _op("opu", [], beh=["termWrite", "opu", "zz", "zz"]),
@@ -55,7 +62,10 @@ def enc(v) -> Any:
     """Python JSON value -> model Val (arrays stay arrays, scalars become their JSON text)."""
     if isinstance(v, (list, tuple)):
         return [enc(x) for x in v]
-    return json.dumps(v, default=repr)          # non-JSON scalars (bytes, sets, complex ...) are shown by their repr
+    try:
+        return json.dumps(v, default=repr)      # non-JSON scalars (bytes, sets, complex ...) are shown by their repr
+    except (TypeError, ValueError):
+        return json.dumps(repr(v))              # e.g. a mapping with tuple keys: no JSON form at all
 
 
 def model_node(spec: dict) -> dict:
@@ -150,7 +160,8 @@ def gen_pipeline(rnd, max_len=6, p_misfit=0.15, sinks_path: str | None = None, a
         if (eff == "NoDataType") == fit or not fit:
             cands += ["TSource", "TSourceDef", "TCollSource", "TPayloadSource"] if (eff == "NoDataType") == fit else []
         if (eff == "TData") == fit:
-            cands += ["TOp0", "TOp1", "TOp1Def", "TOp2", "TOpW", "TOpW2", "TProbe", "TProbeP", "TProbeEcho", "TSink", "TPayloadSink", "TOpToOther"]
+            cands += ["TOp0", "TOp1", "TOp1Def", "TOp2", "TOpW", "TOpW2", "TProbe", "TProbeP", "TProbeEcho", "TSink", "TPayloadSink", "TOpToOther",
+                      "TOp1DefSub", "TOp2Sub", "TOp1Sub", "TOpKw", "TOpKwReq"]
             if fit and rnd.random() < 0.25:
                 cands += ["TOpUndeclared", "TFail", "TFailProbe"]
         if (eff == "TColl") == fit:
@@ -267,7 +278,7 @@ def ctx_view(c) -> list:
     return sorted([[k, enc(v)] for k, v in c.to_dict().items()])
 
 
-def run_real(nodes, ctx0, trace=None, data=None):
+def run_real(nodes, ctx0, trace=None, data=None, run_metadata=None):
     """Pipeline(nodes).process(Payload(NoDataType, ctx0)) with a node-start counter.
 
     Returns dict(outcome='ok'|'constructError'|'runError', started=<nodes started>, data, ctx, exc, cls)."""
@@ -293,6 +304,8 @@ def run_real(nodes, ctx0, trace=None, data=None):
         pipe = Pipeline(copy.deepcopy(nodes), orchestrator=orch, trace=trace) if trace is not None else \
             Pipeline(copy.deepcopy(nodes), orchestrator=orch)
         res["pipeline"] = pipe
+        if run_metadata is not None:
+            pipe.set_run_metadata(run_metadata)
         out = pipe.process(Payload(NoDataType() if data is None else data, ContextType(copy.deepcopy(ctx0))))
         res.update(outcome="ok", data=data_view(out.data), ctx=ctx_view(out.context))
     except BaseException as exc:  # noqa: BLE001
